@@ -303,10 +303,13 @@ pub fn minimise<S: Scenario>(
     let mut best_digest = 0;
     let mut execs = 0u64;
     let mut steps = 0u64;
+    let started = Instant::now();
+    // wall-clock cap as well: some engines cost tens of milliseconds per execution
+    let wall_cap = std::time::Duration::from_secs(if budget > 2000 { 90 } else { 25 });
     'outer: loop {
         let cands = sc.shrink(&best);
         for c in cands {
-            if execs >= budget {
+            if execs >= budget || started.elapsed() > wall_cap {
                 break 'outer;
             }
             execs += 1;
